@@ -22,7 +22,7 @@ EXPLANATION = ("read() is verified against a ghost byte stream with arbitrary sh
 
 def units(tier):
     us = []
-    for q in ("_read_bytes", "_read_line", "_parse_rtcm3", "_parse_ubx", "_parse_nmea", "parse", "read", "__next__", "_do_error"):
+    for q in ("_read_bytes", "_read_line", "_parse_rtcm3", "_parse_ubx", "_parse_nmea", "parse", "read", "__next__", "__iter__", "_do_error"):
         us += func_units(f"{R}.{q}", tier)
     us += func_units("pyrtcm.rtcmhelpers.calc_crc24q", tier)
     us += func_units("pyrtcm.rtcmmessage.RTCMMessage.__init__", tier)
